@@ -1,0 +1,94 @@
+//go:build verif
+
+package schema
+
+// Contracts for the deductive checks in /verif (comment-only; no code).
+// Property C05: advertisement signatures verify exactly what was signed, and by whom.
+
+//@ nonnil log
+
+// The signed payloads mention every signed value, once, in a fixed order
+// (call protocol on the bytes.Buffer; the Buffer itself is a dependency).
+//@ func signaturePayload
+//@   property C05
+//@   requires ad != nil && ad.Entries != nil
+//@   at call Write#1: assert arg1 == bindex
+//@   at call Write#2: assert arg1 == ent
+//@   at call WriteString#1: assert arg1 == ad.Provider
+//@   at call WriteString#2: assert arg1 == ad.Addresses[rangeindex]
+//@   at call Write#3: assert arg1 == ad.Metadata
+//@   at call WriteByte#1: assert ad.IsRm && arg1 == 1
+//@   at call WriteByte#2: assert !ad.IsRm && arg1 == 0
+//@   loop 1: invariant rangeindex < len(ad.Addresses)
+//@   loop 2: invariant rangeindex < len(ad.Addresses)
+//@   ensures-local result1 == nil ==> count("call:Write") == 3 && count("call:WriteByte") == 1
+//@   ensures-local result1 == nil && !oldFormat ==> count("call:Sum") == 1
+
+//@ func extendedProviderSignaturePayload
+//@   property C05
+//@   requires ad != nil && p != nil && ad.Entries != nil
+//@   ensures old(ad.IsRm) ==> result1 != nil
+//@   at call Write#1: assert arg1 == bindex
+//@   at call Write#2: assert arg1 == ent
+//@   at call WriteString#1: assert arg1 == ad.Provider
+//@   at call Write#3: assert arg1 == ad.ContextID
+//@   at call WriteString#2: assert arg1 == p.ID
+//@   at call WriteString#3: assert arg1 == p.Addresses[rangeindex]
+//@   at call Write#4: assert arg1 == p.Metadata
+//@   at call WriteByte#1: assert ad.ExtendedProvider.Override && arg1 == 1
+//@   at call WriteByte#2: assert !ad.ExtendedProvider.Override && arg1 == 0
+//@   loop 1: invariant rangeindex < len(p.Addresses)
+//@   loop 2: invariant rangeindex < len(p.Addresses)
+//@   ensures-local result1 == nil ==> count("call:Write") == 4 && count("call:WriteByte") == 1 && count("call:Sum") == 1
+
+// From the property: nil error => the sealed payload equals the recomputed
+// one, the result is the peer ID of the envelope's key, the main provider is
+// listed when there are extended providers, and every extended-provider entry
+// is signed by the identity it names (by the advertisement's signer for the
+// main provider's own entry).
+//@ func (*Advertisement).VerifySignature
+//@   property C05
+//@   requires ad != nil && ad.Entries != nil
+//@   ghost mainSigner := 0
+//@   ghost epKey := 0
+//@   at call ConsumeTypedEnvelope#1: assert arg0 == ad.Signature && typeis(arg1, "*schema.advSignatureRecord")
+//@   at call Equal#1: assert arg0 == genID && arg1 == rec.advID
+//@   at call IDFromPublicKey#1: after ghost mainSigner := str(result0)
+//@   at call ConsumeTypedEnvelope#2: assert arg0 == p.Signature && typeis(arg1, "*schema.epSignatureRecord")
+//@   at call Equal#2: assert arg0 == genPayload && arg1 == rec.payload
+//@   at call extendedProviderSignaturePayload#1: assert arg0 == ad && arg1.ID == ad.ExtendedProvider.Providers[rangeindex].ID && arg1.Metadata == ad.ExtendedProvider.Providers[rangeindex].Metadata && arg1.Addresses == ad.ExtendedProvider.Providers[rangeindex].Addresses
+//@   ensures-local result1 == nil ==> str(result0) == idOfKey(envKeyOf(content(ad.Signature))) && count("call:Equal") >= 1
+//@   ensures-local result1 == nil && ad.ExtendedProvider != nil && len(ad.ExtendedProvider.Providers) > 0 ==> exists(j, 0, len(ad.ExtendedProvider.Providers), ad.ExtendedProvider.Providers[j].ID == ad.Provider)
+//@   loop 1: invariant ad.ExtendedProvider != nil && rangeindex < len(ad.ExtendedProvider.Providers) && mainSigner == idOfKey(envKeyOf(content(ad.Signature))) && str(signerID) == mainSigner
+//@   loop 1: invariant seenTopLevelProv <==> exists(j, 0, rangeindex + 1, ad.ExtendedProvider.Providers[j].ID == ad.Provider)
+//@   loop 1: iteration ensures ite(ad.ExtendedProvider.Providers[rangeindex].ID == ad.Provider, idOfKey(envKeyOf(content(ad.ExtendedProvider.Providers[rangeindex].Signature))) == mainSigner, idOfKey(envKeyOf(content(ad.ExtendedProvider.Providers[rangeindex].Signature))) == peerOfString(str(ad.ExtendedProvider.Providers[rangeindex].ID)))
+
+// Signing: the main provider's entry is sealed with the advertisement key,
+// every other entry with the key fetched for the identity it names.
+//@ func (*Advertisement).SignWithExtendedProviders
+//@   property C05
+//@   requires ad != nil && ad.Entries != nil
+//@   ghost fetched := zero("crypto.PrivKey")
+//@   at call extendedProviderKeyFetcher#1: assert arg0 == ad.ExtendedProvider.Providers[i].ID
+//@   at call extendedProviderKeyFetcher#1: after ghost fetched := result0
+//@   at call Seal#1: assert ite(ad.ExtendedProvider.Providers[i].ID == ad.Provider, arg1 == key, arg1 == fetched)
+//@   loop 1: invariant ad.ExtendedProvider != nil && 0 <= i && i < len(ad.ExtendedProvider.Providers)
+
+//@ func (*Advertisement).Sign
+//@   property C05
+//@   requires ad != nil && ad.Entries != nil
+//@   ensures-local old(ad.ExtendedProvider) != nil ==> result != nil && count("call:signAd") == 0
+
+//@ func (*Advertisement).signAd
+//@   property C05
+//@   requires ad != nil && ad.Entries != nil
+//@   at call Seal#1: assert arg1 == key && typeis(arg0, "*schema.advSignatureRecord") && as(arg0, "*schema.advSignatureRecord").advID == advID && as(arg0, "*schema.advSignatureRecord").domain == nil && as(arg0, "*schema.advSignatureRecord").codec == nil
+
+//@ func (*advSignatureRecord).Domain
+//@   property C05
+//@   requires r != nil
+//@   ensures old(r.domain) == nil ==> result == adSignatureDomain
+//@ func (*epSignatureRecord).Domain
+//@   property C05
+//@   requires r != nil
+//@   ensures old(r.domain) == nil ==> result == adSignatureDomain
